@@ -354,7 +354,10 @@ class State:
                             u = z3.Select(bt, loc.ref)
                             for ix in idxs:
                                 u = z3.Select(u, ix)
-                            self.assume(u <= fr)
+                            # what a layer holds at an object that already existed when the layer was
+                            # written was allocated by then; objects created later (e.g. inside a
+                            # contracted callee) carry no such bound
+                            self.assume(z3.Implies(loc.ref <= fr, u <= fr))
         v = Val(loc.t, lv)
         if facts:
             k = self.cx.types.kind(loc.t)
